@@ -76,7 +76,7 @@ def retag (clusters : List Nat) (toks : List (Nat × Nat)) : List (Nat × Nat) :
 `sections` = the sample tokens `(cluster, value)` of every stream that uses this tree. -/
 def writeMaConfig (w : BW) (mode : EntMode) (t : Tree) (sections : List (Nat × List (Nat × Nat))) : BW × Coder :=
   let (toks, clusters) := treeTokens t
-  let treeMode : EntMode := if mode == 3 ∨ mode == 5 then 1 else if mode == 4 ∨ mode == 6 then 2 else mode
+  let treeMode : EntMode := if mode == 3 ∨ mode == 5 ∨ mode == 7 then 1 else if mode == 4 ∨ mode == 6 ∨ mode == 8 then 2 else mode
   let tc := mkCoder treeMode 6 [0, 1, 2, 3, 4, 5] [(0, toks)]
   let w := tc.section (tc.header w) 0 toks
   let sc := mkCoder mode clusters.length clusters (sections.map fun (m, s) => (m, retag clusters s))
